@@ -7,7 +7,7 @@ def run(tier):
     ck = Check("C11", tier, "exploration")
     thorough = tier == "thorough"
     wd = workdir("c11")
-    n0, n1, n2 = (3000, 200, 12) if thorough else (300, 40, 10)
+    n0, n1, n2 = (1500, 200, 12) if thorough else (300, 40, 10)
     total_ev = 0
     nentries = 0
     for cfg in ["stable", "nightly"]:
